@@ -25,6 +25,8 @@ def run(tier, seed):
     core.run_jobs(jobs, parallel=10)
     for j in jobs:
         res.absorb(j)
+    if res.classes.get("inconclusive_workload_timeout"):
+        res.inconclusive.append({"reason": "%d workloads hit the 240 s watchdog" % res.classes["inconclusive_workload_timeout"]})
     for f in res.failures:
         # a byte mismatch cannot happen without shared mutable state: reported even if a later replay happens to pass (DESIGN.md, C06 limits)
         f["no_replay"] = True
@@ -33,7 +35,7 @@ def run(tier, seed):
     res.rule = ("E1 rapidcheck over workloads: thread count in {1,2,3,4,8,16,32,64}, per-thread operation lists drawn from {each gate on shared inputs, tfhe_bootstrap_FFT, tfhe_bootstrap_woKS_FFT, FFT product of "
                 "thread-private polynomials, Lagrange add/addmul on private objects, heap churn (allocate, fill, free 16..512 KB before the next FFT call), sleep/yield, thread exit + respawn}, generated start offsets, optional "
                 "key-generation/encryption thread on its own data, key generated on the main thread or on a thread that has since exited; all jobs run concurrently so the machine is oversubscribed. Oracle: every output is "
-                "byte-identical to a reference computed beforehand by a fresh thread that ran only that operation (so concurrency, position in the per-thread history and thread identity must not matter); ThreadSanitizer build "
+                "byte-identical to a reference computed by a fresh thread of a *freshly forked process image* that has never evaluated anything and runs only that operation (so concurrency, position in the per-thread history, thread identity and process-wide statics latched by earlier calls must not matter); operations include bootstrapping under two further key sets with different dimensions and key-switch layouts, and two crafted inputs whose AND combination rounds to exactly 0; ThreadSanitizer build "
                 "of the same workloads must not report (nayuki-portable, fftw, C++ parts of spqlios). Non-trivial = >= 2 threads evaluating on the shared key or an evaluation preceded by other operations on its thread; distinct by case hash.")
     res.assumptions = ["thread interleavings are sampled, not controlled: absence of races is not established", "hand-written assembly is invisible to ThreadSanitizer; it is covered by the byte comparison only"]
     return core.finish(res)
